@@ -214,7 +214,15 @@ def parse_operand_arms():
             m = _re.match(r"^let val = self \. decoder \. (\w+) \( \) \? ; let mut ops = vec! \[ dr :: Operand :: (\w+) \( val \) \] ; "
                           r"ops \. append \( & mut self \. (\w+) \( val \) \? \) ; ops$", txt)
             if not m:
-                raise ShapeError("parse_operand arm for %s at line %d: %s" % (kind, alt[0].line, txt[:160]))
+                # an irregular arm: keep what can be read (first operand constructor, the *_arguments call) and flag it; the checks
+                # that need the exact shape report it, the MIR-based ones go on
+                m1 = _re.search(r"self \. decoder \. (\w+) \( \)", txt)
+                m2 = _re.search(r"dr :: Operand :: (\w+) \(", txt)
+                m3 = _re.search(r"self \. (parse_\w+_arguments) \(", txt)
+                if not (m1 and m2):
+                    raise ShapeError("parse_operand arm for %s at line %d: %s" % (kind, alt[0].line, txt[:160]))
+                out[kind] = dict(operands=[(m2.group(1), m1.group(1))], args_fn=m3.group(1) if m3 else None, panic=False, irregular=txt[:200])
+                continue
             out[kind] = dict(operands=[(m.group(2), m.group(1))], args_fn=m.group(3), panic=False)
     return out
 
@@ -559,7 +567,15 @@ def disas_mask_tables():
             raise ShapeError("Disassemble shape (bits) for %s" % mask)
         p += 8
         bits = []
-        while p < len(body) and body[p].v == "if":
+        else_of = {}
+        chain = []
+        while p < len(body) and (body[p].v == "if" or (body[p].v == "else" and p + 1 < len(body) and body[p + 1].v == "if")):
+            if body[p].v == "else":
+                p += 1
+                else_of[len(bits)] = list(chain)
+            else:
+                chain = []
+            chain.append(len(bits))
             o = p
             while body[o].v != "{":
                 o += 1
@@ -579,6 +595,8 @@ def disas_mask_tables():
         if tail[:4] != ["bits", ".", "join", "("]:
             raise ShapeError("Disassemble tail for %s: %s" % (mask, tail[:6]))
         out[mask] = dict(empty=empty, bits=bits, sep=str_value(body[p + 4]))
+        if else_of:
+            out[mask]["else_of"] = else_of
     return out
 
 
